@@ -13,8 +13,12 @@ Generates lean/CelloGen/Thr.lean:
   * `threadMarkUnguarded : Bool` — `Thread_Mark` marks `t->tls` without testing `self is current(Thread)`, `Thread` has
     that `Mark` instance, `GC_Recurse` dispatches to the `Mark` instance of any object it meets and `Thread` is not
     among its leaf types: the mark phase of one thread walks the thread-local table of every Thread object it reaches
-    (`Cfg.foreignMark`, KF-C13-mark-foreign-tls);
-Theorems `C13_source_shape_as_modelled` and `C13_error_translation_current_source` are stated about these definitions.
+    (`Cfg.foreignMark`, KF-C13-mark-foreign-tls; true for the current source: the guard `if (self is current(Thread))` of
+    commit 80c795e was withdrawn by commit 0a0ad73 — the guarded variant is `foreignMark := false` in the model);
+  * `joinErr` has the case `("EDEADLK", "ResourceError")` since commit 484991f (was KF-C13-join-edeadlk); the model's switch
+    `Cfg.joinIgnoresDeadlk` is `joinIgnoresDeadlkOf joinErr`.
+Theorems `C13_source_shape_as_modelled`, `C13_error_translation_current_source` and `C13_join_repair_in_current_source` are
+stated about these definitions: reverting the repair of `Thread_Join` breaks all three.
 """
 import re
 from ctext import *
@@ -68,7 +72,7 @@ EXPECTED = {
  'Thread_Current': 'if (not Thread_TLS_Key_Created) { Thread_TLS_Key_Create(); Thread_TLS_Key_Created = true; atexit(Thread_TLS_Key_Delete); } var wrapper = pthread_getspecific(Thread_Key_Wrapper); if (wrapper is NULL) { if (Thread_Main is NULL) { Thread_Main = new_raw(Thread); Exception_Main = new_raw(Exception); atexit(Thread_Main_Del); } struct Thread* t = Thread_Main; t->is_main = true; t->is_running = true; t->thread = pthread_self(); return Thread_Main; } return wrapper;',
  'Thread_Init_Run': 'struct Thread* t = self; pthread_setspecific(Thread_Key_Wrapper, t); t->is_running = true; var bottom = NULL; var gc = new_raw(GC, $R(&bottom)); var exc = new_raw(Exception); var x = call_with(t->func, t->args); del_raw(t->args); t->args = NULL; del_raw(gc); del_raw(exc); return x;',
  'Thread_Call': 'struct Thread* t = self; t->args = assign(alloc_raw(type_of(args)), args); if (not Thread_TLS_Key_Created) { Thread_TLS_Key_Create(); Thread_TLS_Key_Created = true; atexit(Thread_TLS_Key_Delete); } int err = pthread_create(&t->thread, NULL, Thread_Init_Run, t); if (err is EINVAL) { throw(ValueError, "Invalid Argument to Thread Creation"); } if (err is EAGAIN) { throw(OutOfMemoryError, "Not enough resources to create another Thread"); } if (err is EBUSY) { throw(BusyError, "System is too busy to create thread"); } return self;',
- 'Thread_Join': 'struct Thread* t = self; if (not t->thread) { return; } int err = pthread_join(t->thread, NULL); if (err is EINVAL) { throw(ValueError, "Invalid Argument to Thread Join"); } if (err is ESRCH) { throw(ValueError, "Invalid Thread"); }',
+ 'Thread_Join': 'struct Thread* t = self; if (not t->thread) { return; } int err = pthread_join(t->thread, NULL); if (err is EINVAL) { throw(ValueError, "Invalid Argument to Thread Join"); } if (err is ESRCH) { throw(ValueError, "Invalid Thread"); } if (err is EDEADLK) { throw(ResourceError, "Thread cannot join itself or a thread that is joining it"); }',
  'Thread_Get': 'struct Thread* t = self; return deref(get(t->tls, key));',
  'Thread_Set': 'struct Thread* t = self; set(t->tls, key, $R(val));',
  'Thread_Mem': 'struct Thread* t = self; return mem(t->tls, key);',
@@ -86,7 +90,7 @@ EXPECTED = {
  'Mutex_instances': 'Instance(Lock, Mutex_Lock, Mutex_Unlock, Mutex_Trylock), Instance(Start, Mutex_Lock, Mutex_Unlock, NULL)',
  'GC_Current': 'return get(current(Thread), $S(GC_TLS_KEY));',
  'GC_New': 'set(current(Thread), $S(GC_TLS_KEY), gc);',
- 'GC_Del': 'struct GC* gc = self; GC_Sweep(gc); free(gc->entries); free(gc->freelist); rem(current(Thread), $S(GC_TLS_KEY));',
+ 'GC_Del': 'struct GC* gc = self; GC_Unmark(gc); GC_Sweep(gc); free(gc->entries); free(gc->freelist); rem(current(Thread), $S(GC_TLS_KEY));',
  'GC_Mark_tls': 'mark(current(Thread), gc, (void(*)(var,void*))GC_Mark_And_Recurse);',
  'Exception_Current': 'return get(current(Thread), $S(EXCEPTION_TLS_KEY));',
  'Exception_New': 'set(current(Thread), $S(EXCEPTION_TLS_KEY), self);',
@@ -181,9 +185,9 @@ def gen_thr(repo):
     out += f'def trylockDefault : String := {lean_str(trydef)}\n\n'
     out += '/-- does the epilogue of `Thread_Init_Run` delete the collector (teardown sweep) before the exception record? -/\n'
     out += f"def teardownGcFirst : Bool := {'true' if gc_first else 'false'}\n\n"
-    out += '/-- the mark phase of one thread walks the thread-local table of every Thread object it reaches: `Thread_Mark` marks\n'
-    out += '    `t->tls` of whatever Thread object it is handed (no `self is current(Thread)` test), `GC_Recurse` hands it every\n'
-    out += '    object that has a `Mark` instance -/\n'
+    out += '/-- true iff the mark phase of one thread walks the thread-local table of every Thread object it reaches: `Thread_Mark`\n'
+    out += '    marks `t->tls` of whatever Thread object it is handed (no `self is current(Thread)` test) and `GC_Recurse` hands it\n'
+    out += '    every object that has a `Mark` instance -/\n'
     out += f"def threadMarkUnguarded : Bool := {'true' if unguarded else 'false'}\n\n"
     out += '/-- the functions the thread model mirrors, as they are in /repo now (UNIX configuration, collector enabled) -/\n'
     out += 'def shape : List (String × String) :=\n  ' + pairs(shape) + '\n\n'
